@@ -162,6 +162,7 @@ def _c01_preds():
             "Import ListNotations.", "Open Scope N_scope.", "Open Scope bool_scope.", ""]
     write_gen("SrcPreds.v", "\n".join(head + defs) + "\n")
     globals()["_src_preds_fns"] = em.fns
+    globals()["_src_preds_safe"] = em.safe
 
 
 _c01_preds()
